@@ -245,6 +245,16 @@ def run_unit(repo, contracts_dir, unit, workdir, rlimit=30, threads=8, timeout=9
         res.functions[owner]['failures'].append(dict(kind=kind, message=msg, gen_line=prim[0]['line_start'] if prim else None,
                                                       text=txt, rendered=(d.get('rendered') or '')[:1500]))
         res.raw_errors.append((owner, kind, msg))
+    compute_only = bool(res.raw_errors) and all(k == 'assert-by-compute' for (_, k, _) in res.raw_errors) and not hard
+    if compute_only and (not vr or vr.get('encountered-vir-error')):
+        # a failed `assert(..) by(compute)` stops Verus before the SMT phase: the located failures are the result
+        for ident, fd in res.functions.items():
+            if fd['kind'] == 'spec' or fd['mode'] == 'trusted':
+                fd['ok'] = None
+            else:
+                fd['ok'] = len(fd['failures']) == 0
+        res.reason = 'verus stopped at a failed by(compute) assertion; other functions of this unit were not checked in this run'
+        return res
     if not vr or vr.get('encountered-vir-error') or (hard and not res.raw_errors) or (hard and any(not h.startswith('resource') for h in hard)):
         if hard or not vr or vr.get('encountered-vir-error'):
             res.status = 'undecided'
